@@ -164,6 +164,7 @@ type GenOpts struct {
 	Flap     bool // emphasise resolve / re-fire around flushes and slow deliveries
 	Inhibit  bool // 1-2 inhibition rules over the scenario's label sets (drawn last: the other draws are unchanged)
 	RouteLbl bool // route labels on the root route, one of them a template over the group's alerts (no random draw)
+	Many     bool // 17-70 alerts in ONE group, submitted and re-sent in bursts (use a generator of its own)
 }
 
 func Gen(r *vh.Rand, o GenOpts) Scenario {
@@ -205,6 +206,13 @@ func Gen(r *vh.Rand, o GenOpts) Scenario {
 			ls["sev"] = vh.Pick(r, []string{"a", "b"})
 		}
 		sc.LabelSets = append(sc.LabelSets, ls)
+	}
+	if o.Many {
+		sc.LabelSets = nil
+		n := vh.Pick(r, []int{17, 18, 31, 32, 33, 40, 64, 65, 70})
+		for i := 0; i < n; i++ {
+			sc.LabelSets = append(sc.LabelSets, map[string]string{"alertname": "A", "job": "a", "inst": fmt.Sprintf("i%d", i)})
+		}
 	}
 	sc.Receivers = map[string][]IntJ{"default": mkInts()}
 	if o.Routes && r.Chance(1, 4) {
@@ -296,6 +304,23 @@ func Gen(r *vh.Rand, o GenOpts) Scenario {
 			op.Ends = int64(5 * time.Minute)
 		}
 		sc.Ops = append(sc.Ops, op)
+	}
+	if o.Many {
+		// everything fires at once, is re-sent unchanged a few times (an unchanged group must stay quiet until the
+		// repeat interval), then a part resolves
+		// a burst is dozens of publications at one instant, ingested concurrently with the dispatcher: it must not share
+		// its instant with a flush (the order of a tick and the inserts of that instant is not observable), so bursts
+		// sit 7 ms off the timer grid and the group waits at least a second
+		if sc.GW == 0 {
+			sc.GW = int64(time.Second)
+			sc.GWs = dur(sc.GW)
+		}
+		off := int64(7 * time.Millisecond)
+		ops := []OpJ{{Kind: "burst", Dt: off, Ends: int64(24 * time.Hour)}}
+		for i := 0; i < r.Range(1, 3); i++ {
+			ops = append(ops, OpJ{Kind: "burst", Dt: abs64(vh.Pick(r, []int64{sc.GI, sc.GI + int64(time.Second), 2 * sc.GI, sc.GW + int64(time.Second)})), Ends: int64(24 * time.Hour)})
+		}
+		sc.Ops = append(ops, sc.Ops...)
 	}
 	sc.Tail = vh.Pick(r, []int64{sc.GI * 2, sc.RI + 2*sc.GI, sc.GW + sc.GI + 1, 3 * sc.GI, sc.RI * 2})
 	// keep the number of flushes per scenario small (case text size): no step longer than 8 group intervals
@@ -453,6 +478,10 @@ func Run(t *testing.T, sc *Scenario) *Result {
 				ls := toLS(sc.LabelSets[op.LS])
 				a := &alert.Alert{Alert: model.Alert{Labels: ls, StartsAt: now.Add(time.Duration(op.Starts)), EndsAt: now.Add(time.Duration(op.Ends))}, UpdatedAt: now}
 				s.PutAlert(a)
+			case "burst":
+				for _, m := range sc.LabelSets {
+					s.PutAlert(&alert.Alert{Alert: model.Alert{Labels: toLS(m), StartsAt: now, EndsAt: now.Add(time.Duration(op.Ends))}, UpdatedAt: now})
+				}
 			case "silence":
 				ls := sc.LabelSets[op.LS]
 				sil := &silencepb.Silence{Comment: "c", CreatedBy: "h"}
@@ -893,6 +922,14 @@ func Monitor(res *Result, which string) []vh.Violation {
 		keys = append(keys, k)
 	}
 	sort.Strings(keys)
+	// the timers a route works with are the ones its configuration gives it (own value or the parent's): C07's inheritance
+	// clause, and the premise of every timing clause of C01 / C04 / C05
+	for _, gk := range vh.SortedKeys(res.Groups) {
+		g := res.Groups[gk]
+		if gw, gi, ri, _, ok := res.Sc.refTimers(gk); ok && (g.GW != gw || g.GI != gi || g.RI != ri) {
+			add("route-timers-differ-from-configuration", fmt.Sprintf("group %s works with group_wait=%s group_interval=%s repeat_interval=%s, the configuration gives %s / %s / %s", gk, dur(g.GW), dur(g.GI), dur(g.RI), dur(gw), dur(gi), dur(ri)))
+		}
+	}
 	for _, gk := range keys {
 		g := res.Groups[gk]
 		if g == nil {
@@ -1364,6 +1401,40 @@ func (res *Result) hasSilenceOps() bool {
 // matches; children in order, first match wins unless continue; the node itself only if no child matched) and the
 // group_by inheritance are re-implemented here on the scenario's own route description, without calling
 // dispatch.Route.Match or getGroupLabels. Scenario routes are one level deep with equality matchers only.
+// refTimers gives the timers and receiver a group key's route has ACCORDING TO THE CONFIGURATION TEXT (child override
+// or the root's value), independently of dispatch.NewRoute.
+func (sc *Scenario) refTimers(gkey string) (gw, gi, ri int64, recv string, ok bool) {
+	rk := gkey
+	if i := strings.Index(gkey, ":"); i >= 0 {
+		rk = gkey[:i]
+	}
+	if rk == "{}" {
+		return sc.GW, sc.GI, sc.RI, "default", true
+	}
+	for _, r := range sc.Routes {
+		ks := vh.SortedKeys(r.Match)
+		parts := make([]string, len(ks))
+		for i, k := range ks {
+			parts[i] = fmt.Sprintf("%s=%q", k, r.Match[k])
+		}
+		if rk != "{}/{"+strings.Join(parts, ",")+"}" {
+			continue
+		}
+		gw, gi, ri = sc.GW, sc.GI, sc.RI
+		if r.GW != 0 {
+			gw = r.GW
+		}
+		if r.GI != 0 {
+			gi = r.GI
+		}
+		if r.RI != 0 {
+			ri = r.RI
+		}
+		return gw, gi, ri, r.Receiver, true
+	}
+	return 0, 0, 0, "", false
+}
+
 func (sc *Scenario) refGroups(ls model.LabelSet) []string {
 	type node struct {
 		key     string
